@@ -75,7 +75,7 @@ package aws
 // in plain ASG mode the only write is SetDesiredCapacity(current + delta), so capacity is never lowered.
 //@ func (*NodeGroup).IncreaseSize(n, delta) (err)
 //@   requires asgOK(n) && n.provider.ec2Service != nil
-//@   modifies Jlen, Jkind, Jname, Jnum, Jok, Jaux, ATTs, TERMs, n.terminateInstancesTries
+//@   modifies Jlen, Jkind, Jname, Jnum, Jok, Jaux, ATTs, TERMs, nATT, FLEETout, n.terminateInstancesTries
 //@   ensures Jlen >= old(Jlen) && ajprefix(old(Jlen))
 //@   ensures [C17,C04] delta <= 0 || desired(n) + delta > amax(n) ==> err != nil && Jlen == old(Jlen)
 //@   ensures [C17,C07] n.config.AWSConfig.LaunchTemplateID == "" && delta > 0 && desired(n) + delta <= amax(n) ==> Jlen == old(Jlen) + 1 && Jkind[old(Jlen)] == A_SETDESIRED && Jname[old(Jlen)] == n.id && Jnum[old(Jlen)] == desired(n) + delta && Jnum[old(Jlen)] > desired(n) && Jok[old(Jlen)] == (err == nil)
@@ -138,7 +138,9 @@ package aws
 //@ spec fleetMin(input *ec2.CreateFleetInput) int = (deref(input.TargetCapacitySpecification.DefaultTargetCapacityType) == "on-demand" ? (input.OnDemandOptions == nil || input.OnDemandOptions.MinTargetCapacity == nil ? 0 - 1 : deref(input.OnDemandOptions.MinTargetCapacity)) : (input.SpotOptions == nil || input.SpotOptions.MinTargetCapacity == nil ? 0 - 1 : deref(input.SpotOptions.MinTargetCapacity)))
 //@ iface github.com/aws/aws-sdk-go/service/ec2/ec2iface.EC2API.CreateFleet(api, input) (out, err)
 //@   requires input != nil && input.Type != nil && input.TargetCapacitySpecification != nil && input.TargetCapacitySpecification.TotalTargetCapacity != nil && input.TargetCapacitySpecification.DefaultTargetCapacityType != nil
-//@   modifies Jlen, Jkind, Jname, Jnum, Jok, Jaux
+//@   modifies Jlen, Jkind, Jname, Jnum, Jok, Jaux, FLEETout
+//@   ensures FLEETout == out
+//@   ensures err == nil ==> (forall i :: 0 <= i && i < len(out.Instances) ==> (forall j :: 0 <= j && j < len(out.Instances[i].InstanceIds) ==> out.Instances[i].InstanceIds[j] != nil))
 //@   ensures Jlen == old(Jlen) + 1 && Jkind == old(Jkind)[old(Jlen) := A_FLEET] && Jname == old(Jname)[old(Jlen) := deref(input.TargetCapacitySpecification.DefaultTargetCapacityType)] && Jnum == old(Jnum)[old(Jlen) := deref(input.TargetCapacitySpecification.TotalTargetCapacity)] && Jok == old(Jok)[old(Jlen) := err == nil] && Jaux == old(Jaux)[old(Jlen) := fleetMin(input)]
 //@   ensures err == nil ==> out != nil && (forall i :: 0 <= i && i < len(out.Instances) ==> out.Instances[i] != nil) && (forall e :: 0 <= e && e < len(out.Errors) ==> out.Errors[e] != nil && out.Errors[e].ErrorMessage != nil)
 
@@ -146,7 +148,8 @@ package aws
 //@ iface github.com/aws/aws-sdk-go/service/autoscaling/autoscalingiface.AutoScalingAPI.AttachInstances(api, input) (out, err)
 //@   requires input != nil && input.AutoScalingGroupName != nil
 //@   requires [C17,C07] len(input.InstanceIds) <= 20
-//@   modifies Jlen, Jkind, Jname, Jnum, Jok, ATTs
+//@   modifies Jlen, Jkind, Jname, Jnum, Jok, ATTs, nATT
+//@   ensures nATT == old(nATT) + (err == nil ? len(input.InstanceIds) : 0)
 //@   ensures Jlen == old(Jlen) + 1 && Jkind == old(Jkind)[old(Jlen) := A_ATTACH] && Jname == old(Jname)[old(Jlen) := deref(input.AutoScalingGroupName)] && Jnum == old(Jnum)[old(Jlen) := len(input.InstanceIds)] && Jok == old(Jok)[old(Jlen) := err == nil]
 //@   ensures err != nil ==> ATTs == old(ATTs)
 //@   ensures err == nil ==> (forall i :: 0 <= i && i < len(input.InstanceIds) ==> ATTs[deref(input.InstanceIds[i])])
@@ -195,11 +198,84 @@ package aws
 //@   invariant len(instanceIds) == #i && base(instanceIds) == entry(base(instanceIds)) && off(instanceIds) == 0 && cap(instanceIds) == len(batch)
 //@   invariant forall j :: 0 <= j && j < #i ==> instanceIds[j] == deref(batch[j])
 
-// The fleet path below IncreaseSize is not yet verified function by function: setASGDesiredSizeOneShot
-// is used through this ASSUMED contract (listed as trusted in the evidence). It only says what
-// IncreaseSize needs: the journal grows, earlier events are untouched, no SetDesiredCapacity is issued.
-//@ assume func (*NodeGroup).setASGDesiredSizeOneShot(n, addCount) (err)
+// ---------------------------------------------------------------- fleet path below IncreaseSize (C17, C18)
+
+// timers: never nil; when they fire is not modelled (the select below them is a free choice)
+//@ assume func time.NewTicker(d) (t)
+//@   ensures t != nil && fresh(t)
+//@ assume func time.NewTimer(d) (t)
+//@   ensures t != nil && fresh(t)
+
+// read-only SDK traffic (DescribeInstanceStatusPages / DescribeAutoScalingGroups): assumed to issue no write
+//@ assume func (*NodeGroup).allInstancesReady(n, ids) (r)
+//@   pure
+//@ assume func createTemplateOverrides(n) (ov, err)
+//@   ensures base(ov) == nil || fresh(base(ov))
+
+// C17: the CreateFleet request asks for exactly addCount instances of the configured lifecycle, all or nothing
+// (the options block of that lifecycle carries MinTargetCapacity == TotalTargetCapacity == addCount).
+//@ func createFleetInput(n, addCount) (input, err)
+//@   requires n.config != nil && n.provider != nil && n.provider.service != nil
+//@   ensures err == nil ==> input != nil && fresh(input) && input.Type != nil && input.TargetCapacitySpecification != nil && input.TargetCapacitySpecification.TotalTargetCapacity != nil && input.TargetCapacitySpecification.DefaultTargetCapacityType != nil
+//@   ensures [C17,C07] err == nil ==> deref(input.Type) == "instant" && deref(input.TargetCapacitySpecification.TotalTargetCapacity) == addCount && deref(input.TargetCapacitySpecification.DefaultTargetCapacityType) == (n.config.AWSConfig.Lifecycle == "" ? "on-demand" : n.config.AWSConfig.Lifecycle) && fleetMin(input) == addCount
+
+// nATT counts the instance ids attached by successful AttachInstances calls
+//@ ghost nATT int
+
+// attachInstancesToASG (C17, C18). With m = nATT - old(nATT) the number of ids attached by this call:
+// the first m instances given are attached, in calls of at most 20 ids; on failure (readiness timeout or the
+// k-th attach call failing) the others - and only those - were handed to terminate and the error is returned;
+// on success all are attached and nothing is terminated. So every position is attached or submitted for
+// termination, never both, never neither.
+//@ func (*NodeGroup).attachInstancesToASG(n, instances, terminate) (err)
+//@   fnparam terminate = terminateOrphanedInstances
+//@   requires asgOK(n) && n.provider.ec2Service != nil && idsOK(instances)
+//@   modifies Jlen, Jkind, Jname, Jnum, Jok, ATTs, TERMs, nATT, n.terminateInstancesTries
+// (on a failed attach call the list handed to terminate is built by append into the unused capacity of the slice given)
+//@   modifies spare(instances)
+//@   ensures Jlen >= old(Jlen) && ajprefix(old(Jlen))
+//@   ensures forall k :: old(Jlen) <= k && k < Jlen ==> Jkind[k] == A_ATTACH || Jkind[k] == A_TERM
+//@   ensures [C17,C07] forall k :: old(Jlen) <= k && k < Jlen && Jkind[k] == A_ATTACH ==> Jnum[k] <= 20
+//@   ensures [C17,C18] 0 <= nATT - old(nATT) && nATT - old(nATT) <= len(instances) && (err == nil ==> nATT - old(nATT) == len(instances))
+//@   ensures [C17,C18] forall i :: 0 <= i && i < nATT - old(nATT) ==> ATTs[deref(instances[i])]
+//@   ensures [C18] err != nil ==> (forall i :: nATT - old(nATT) <= i && i < len(instances) ==> TERMs[deref(instances[i])])
+//@   ensures [C18] err == nil ==> TERMs == old(TERMs)
+//@   ensures [C18] forall s string :: ATTs[s] && !old(ATTs)[s] ==> inIds(s, instances[:nATT - old(nATT)])
+//@   ensures [C18] forall s string :: TERMs[s] && !old(TERMs)[s] ==> inIds(s, instances[nATT - old(nATT):])
+//@   ensures forall s string :: (old(ATTs)[s] ==> ATTs[s]) && (old(TERMs)[s] ==> TERMs[s])
+//@ loop #0
+//@   invariant Jlen == old(Jlen) && ATTs == old(ATTs) && TERMs == old(TERMs) && nATT == old(nATT) && ajprefix(old(Jlen))
+//@ loop #1
+//@   invariant 0 <= nATT - old(nATT) && base(instances) == base(entry(instances)) && off(instances) == off(entry(instances)) + (nATT - old(nATT)) && len(instances) == len(entry(instances)) - (nATT - old(nATT)) && cap(instances) == cap(entry(instances)) - (nATT - old(nATT))
+// (the same backing array seen from the slice given and from what is left of it: element i of the one is element i - m of the other)
+//@   invariant forall i {elemref(entry(instances), i)} :: elemref(entry(instances), i) == elemref(instances, i - (nATT - old(nATT)))
+//@   invariant forall j {elemref(instances, j)} :: elemref(instances, j) == elemref(entry(instances), j + (nATT - old(nATT)))
+//@   invariant Jlen >= old(Jlen) && ajprefix(old(Jlen)) && TERMs == old(TERMs)
+//@   invariant forall k :: old(Jlen) <= k && k < Jlen ==> Jkind[k] == A_ATTACH && Jnum[k] <= 20
+//@   invariant forall i :: 0 <= i && i < nATT - old(nATT) ==> ATTs[deref(entry(instances)[i])]
+//@   invariant forall s string :: ATTs[s] && !old(ATTs)[s] ==> inIds(s, entry(instances)[:nATT - old(nATT)])
+//@   invariant forall s string :: old(ATTs)[s] ==> ATTs[s]
+
+// setASGDesiredSizeOneShot (C17, C18): one CreateFleet for exactly addCount instances, all or nothing, as the
+// first write; never a SetDesiredCapacity; attach calls of at most 20 ids; every acquired instance id is
+// attached or submitted for termination (by position, never both: see attachInstancesToASG); nothing is
+// terminated unless an error is returned.
+//@ ghost FLEETout *ec2.CreateFleetOutput
+//@ spec acqIds(out *ec2.CreateFleetOutput, i int) []*string = out.Instances[i].InstanceIds
+//@ func (*NodeGroup).setASGDesiredSizeOneShot(n, addCount) (err)
 //@   requires asgOK(n) && n.provider.ec2Service != nil && addCount > 0
-//@   modifies Jlen, Jkind, Jname, Jnum, Jok, Jaux, ATTs, TERMs, n.terminateInstancesTries
+//@   modifies Jlen, Jkind, Jname, Jnum, Jok, Jaux, ATTs, TERMs, nATT, FLEETout, n.terminateInstancesTries
 //@   ensures Jlen >= old(Jlen) && ajprefix(old(Jlen))
 //@   ensures forall k :: old(Jlen) <= k && k < Jlen ==> Jkind[k] != A_SETDESIRED
+//@   ensures [C17,C07] forall k :: old(Jlen) <= k && k < Jlen && Jkind[k] == A_ATTACH ==> Jnum[k] <= 20
+//@   ensures [C17,C07] Jlen > old(Jlen) ==> Jkind[old(Jlen)] == A_FLEET && Jnum[old(Jlen)] == addCount && Jaux[old(Jlen)] == addCount
+//@   ensures [C17,C07] forall k :: old(Jlen) < k && k < Jlen ==> Jkind[k] != A_FLEET
+//@   ensures [C18] err == nil ==> TERMs == old(TERMs)
+//@   ensures [C18] Jlen > old(Jlen) + 1 ==> (forall i :: 0 <= i && i < len(FLEETout.Instances) ==> (forall j :: 0 <= j && j < len(acqIds(FLEETout, i)) ==> ATTs[deref(acqIds(FLEETout, i)[j])] || TERMs[deref(acqIds(FLEETout, i)[j])]))
+//@   ensures [C18] Jlen > old(Jlen) + 1 && err == nil ==> (forall i :: 0 <= i && i < len(FLEETout.Instances) ==> (forall j :: 0 <= j && j < len(acqIds(FLEETout, i)) ==> ATTs[deref(acqIds(FLEETout, i)[j])]))
+//@ loop #0
+//@ loop #1
+//@   invariant cap(instances) == 0 || birth(base(instances)) >= entry(now)
+//@   invariant forall p :: 0 <= p && p < len(instances) ==> birth(instances[p]) < now
+//@   invariant forall p :: 0 <= p && p < len(instances) ==> instances[p] != nil
+//@   invariant [C18] forall i :: 0 <= i && i < #i ==> (forall j :: 0 <= j && j < len(acqIds(fleet, i)) ==> inIds(deref(acqIds(fleet, i)[j]), instances))
